@@ -17,13 +17,13 @@ import (
 
 // roundTrip renders the history on the implementation and compares the re-parsed output
 // with the original.
-func roundTrip(t *testing.T, name, src string, r *rand.Rand, dir string) (string, *Stats, error) {
+func roundTrip(t *testing.T, name, src string, r *rand.Rand, dir string, pkgName func(string) (string, bool)) (string, *Stats, error) {
 	fset := token.NewFileSet()
 	f, err := parser.ParseFile(fset, name, src, 0)
 	if err != nil {
 		return "", nil, err
 	}
-	h, st, err := FileOpts(fset, f, &Options{R: r, Dir: dir})
+	h, st, err := FileOpts(fset, f, &Options{R: r, Dir: dir, PkgName: pkgName})
 	if err != nil {
 		return "", st, err
 	}
@@ -131,7 +131,7 @@ M:
 		if seed > 0 {
 			r = rand.New(rand.NewSource(seed))
 		}
-		d, _, err := roundTrip(t, "x.go", src, r, "")
+		d, _, err := roundTrip(t, "x.go", src, r, "", nil)
 		if err != nil {
 			t.Fatal(err)
 		}
@@ -147,6 +147,10 @@ func TestGoroot(t *testing.T) {
 		t.Skip()
 	}
 	src := SrcRoot()
+	if e := os.Getenv("REBUILD_ROOT"); e != "" {
+		src = e // another toolchain's src tree
+	}
+	pkgName := PkgNameIn(src)
 	var files []string
 	filepath.WalkDir(src, func(p string, d fs.DirEntry, err error) error {
 		if err != nil {
@@ -178,7 +182,7 @@ func TestGoroot(t *testing.T) {
 			t.Fatal(err)
 		}
 		rel, _ := filepath.Rel(src, p)
-		d, st, err := roundTrip(t, p, string(b), r, filepath.ToSlash(filepath.Dir(rel)))
+		d, st, err := roundTrip(t, p, string(b), r, filepath.ToSlash(filepath.Dir(rel)), pkgName)
 		if err != nil {
 			if s, ok := err.(*Skip); ok {
 				skips[s.Reason]++
@@ -277,8 +281,11 @@ func TestCompareAccepts(t *testing.T) {
 	if d := parse2(t, "package p\nfunc f() () {}", "package p\nfunc f() {}"); d != "" {
 		t.Error(d)
 	}
-	if d := parse2(t, "package p\nfunc f() { L: ; x() }", "package p\nfunc f() { L: x() }"); d != "" {
+	if d := parse2(t, "package p\nfunc f() { L: ; }", "package p\nfunc f() { L: }"); d != "" {
 		t.Error(d)
+	}
+	if d := parse2(t, "package p\nfunc f() { L: ; x() }", "package p\nfunc f() { L: x() }"); d == "" {
+		t.Error("a label moved onto the next statement was accepted")
 	}
 }
 
